@@ -94,6 +94,8 @@ def gen_case(rng, tier):
     nver = rng.choice([2, 2, 3, 4])
     big = rng.random() < 0.03
     contents = [(gen.gen_many_records(rng) if rng.random() < 0.35 else gen.gen_many_rows(rng)) if big else gen.gen_fasta(rng)]
+    if big and rng.random() < 0.25:
+        contents = [gen.gen_huge_line(rng)]  # (a line longer than any fixed read limit a scanner may use)
     if big:
         # scale outlier: keep the event count of one load small
         knobs.update({"io_buf": rng.choice([4096, 8192]), "text_chunk": 8192, "read_buf": 4096,
@@ -656,6 +658,18 @@ class Exec:
         for v in range(len(self.blobs)):
             if self.reference(v) is None:
                 self.discard = True
+                return
+        # O6: the reference is the repo's own scanner; what the generator KNOWS about the
+        # content (sequence names in file order, number of residues of each) must be what
+        # the scanner reports, or "the index of the current content" means nothing
+        for v in range(len(self.blobs)):
+            want = [(r["name"], len(r["seq"])) for r in self.case["contents"][v]["records"]]
+            got = [(t[0], t[1]) for t in self.reference(v)[0]]
+            if got != want:
+                bad = next((k for k, (a, b) in enumerate(zip(got, want)) if a != b), min(len(got), len(want)))
+                self.violate("O6_scan_disagrees_with_content", "reference",
+                             f"content version {v}: the scanner reports {got[bad:bad + 2]} where the file holds {want[bad:bad + 2]} "
+                             f"({len(got)} vs {len(want)} records)", 0)
                 return
         with w:
             root_logger = logging.getLogger()
